@@ -137,6 +137,18 @@ pub enum Op1 {
   All(P),
   Collect,
   OnErrorMap,
+  // ---- stateful user closures: the result depends on how often the closure
+  // ---- has been called (0-based call index k)
+  /// map(v => v + 10k)
+  MapIdx,
+  /// filter: keeps the items for which k is even
+  FilterIdx,
+  /// take_while: true for the first n calls
+  TakeWhileIdx(usize),
+  /// skip_while: true for the first n calls
+  SkipWhileIdx(usize),
+  /// scan(acc, v => acc + v + k)
+  ScanIdx,
   // ---- no exact single-input list model below this line
   Finalize,
   BoxIt,
@@ -431,6 +443,11 @@ impl Op1 {
       Op1::All(_) => "all",
       Op1::Collect => "collect",
       Op1::OnErrorMap => "on_error_map",
+      Op1::MapIdx => "map(stateful)",
+      Op1::FilterIdx => "filter(stateful)",
+      Op1::TakeWhileIdx(_) => "take_while(stateful)",
+      Op1::SkipWhileIdx(_) => "skip_while(stateful)",
+      Op1::ScanIdx => "scan(stateful)",
       Op1::Finalize => "finalize",
       Op1::BoxIt => "box_it",
       Op1::Share => "share",
@@ -964,6 +981,46 @@ macro_rules! build_fns {
             }
             Op1::Collect => s.collect::<Vec<V>>().map(V::from).box_it(),
             Op1::OnErrorMap => s.on_error_map(E::swap).box_it(),
+            Op1::MapIdx => {
+              let mut k = 0i64;
+              s.map(move |v: V| {
+                k += 1;
+                V::I(v.num() + 10 * (k - 1))
+              })
+              .box_it()
+            }
+            Op1::FilterIdx => {
+              let k = std::cell::Cell::new(0usize);
+              s.filter(move |_: &V| {
+                k.set(k.get() + 1);
+                (k.get() - 1) % 2 == 0
+              })
+              .box_it()
+            }
+            Op1::TakeWhileIdx(n) => {
+              let (n, mut k) = (*n, 0usize);
+              s.take_while(move |_: &V| {
+                k += 1;
+                k <= n
+              })
+              .box_it()
+            }
+            Op1::SkipWhileIdx(n) => {
+              let (n, mut k) = (*n, 0usize);
+              s.skip_while(move |_: &V| {
+                k += 1;
+                k <= n
+              })
+              .box_it()
+            }
+            Op1::ScanIdx => {
+              let k = std::cell::Cell::new(0i64);
+              s.scan(move |acc: V, v: V| {
+                k.set(k.get() + 1);
+                V::I(acc.num() + v.num() + k.get() - 1)
+              })
+              .box_it()
+            }
             Op1::Finalize => {
               let f = c.finals.clone();
               s.$finalize(move || {
